@@ -240,7 +240,11 @@ func (m *Message) tryCompressPayload(enableCompression bool) error {
 		return buf.Err
 	}
 	compressedPayload := buf.Bytes()
-	if m.Flags&Compressed == 0 && enableCompression {
+	// The payload is serialized anew, so the flag is to be set anew too: it can
+	// be left from the previous serialization of the same message (made for a
+	// peer supporting compression) or from decoding.
+	m.Flags &^= Compressed
+	if enableCompression {
 		switch m.Payload.(type) {
 		case *payload.Headers, *payload.MerkleBlock, payload.NullPayload,
 			*payload.Inventory, *payload.MPTInventory:
